@@ -818,6 +818,7 @@ pub fn gen(ctx: &Ctx, emit: &mut dyn FnMut(String)) {
     // component generators kept in their own files
     crate::prop::c12lists::gen(ctx, emit);
     crate::prop::c12unit::gen(ctx, emit);
+    crate::prop::c12cfi::gen(ctx, emit);
     let mut rng = ctx.rng(12);
     // Model/ConvLine.lean vs the code: every instruction list over a small alphabet up to a
     // length (exhaustive), then random longer ones with several sequences
